@@ -465,6 +465,14 @@ class SeqRun(seq_hooks.HooksMixin, object):
             if getattr(self, 'peer', None):
                 raise Poisoned()        # after a peer's write any error ends the session (see op_peer)
             fault = len(simdb.ctx.fired) > g0
+            if isinstance(e, core.UnrepeatableReadError) and not fault and not self.fault_fired_in_session \
+                    and not must_fail:
+                # nobody else writes to this database: a modification that reports a concurrent change was refused
+                # for what the session itself had pending (under loading knobs the check re-tags this as C23).
+                # (A call the model refuses anyway - a key that a stored, not loaded row holds - may fail with any
+                # error: creating Group(1, 2) a second time and linking a member of the stored one is reported so.)
+                self.viol('C10', 'modification-raised-unrepeatable', desc.split(' ')[0],
+                          '%s raised UnrepeatableReadError in a history with a single writer: %s' % (desc, str(e)[:240]))
             if fault:
                 self.fault_fired_in_session = True
                 self.probe('modification_failed_by_injected_fault')
